@@ -193,10 +193,12 @@ def main(argv=None):
         "verdict": "violated" if new_mechs else ("inconclusive" if reasons else "held-on-observed"),
         "inconclusive_reasons": reasons,
     }
-    epath = os.path.join(HOME, "evidence", f"{prop}.json")
-    with open(epath + ".tmp", "w") as f:
+    edir = os.environ.get("VERIF_EVIDENCE_DIR") or os.path.join(HOME, "evidence")
+    os.makedirs(edir, exist_ok=True)
+    epath = os.path.join(edir, f"{prop}.json")
+    with open(epath + f".tmp{os.getpid()}", "w") as f:
         json.dump(evid, f, indent=1, default=repr)
-    os.replace(epath + ".tmp", epath)
+    os.replace(epath + f".tmp{os.getpid()}", epath)
     try:
         import jsonschema
 
@@ -221,7 +223,7 @@ def main(argv=None):
         print(f"KNOWN-FINDING: property={prop} {mech}: {e['what']} (observed {n}x)")
     rc = 0
     if new_mechs:
-        rdir = os.path.join(HOME, "replays", prop)
+        rdir = os.path.join(os.environ.get("VERIF_REPLAY_DIR") or os.path.join(HOME, "replays"), prop)
         os.makedirs(rdir, exist_ok=True)
         seen = set()
         for v in new_viol:
